@@ -103,7 +103,7 @@ PROPS = {
         "jobs": [{"run": "^TestC12", "shards": 32, "quick_shards": 4, "timeout_quick": 600, "timeout_thorough": 3000}],
     },
     "C04": {
-        "rule": ("targets: a catalog of 43 representative types (every leaf kind, packed/fixed/counted/proto slices, maps incl. struct keys and "
+        "rule": ("targets: a catalog of 45 representative types (incl. field indexes 8192 and 70000, a 12-field struct) (every leaf kind, packed/fixed/counted/proto slices, maps incl. struct keys and "
                  "pointer values, nested and recursive structs, both time codecs, null types) plus generated types (as C01). Inputs: (1) exhaustive: "
                  "every string of length <=4 (quick) / <=5 (thorough) over the alphabet {00 01 02 03 05 07 08 0a 0b 0d 10 12 1a 7f 80 ff} against "
                  "every catalog type in two configs; (2) every prefix of reference encodings of generated values; (3) rapid-driven structural "
@@ -223,7 +223,7 @@ PROPS = {
                  "ever returned is re-checked after every later step. Non-trivial = >=3 distinct strings with a repeat after table growth and a "
                  "buffer overwrite in between (sequential) / a preemption at the intern-miss point (scheduled); distinct by history hash."),
         "jobs": [
-            {"run": "^TestC19(Sequential|Schedules|LongHistory)$", "shards": 16, "quick_shards": 4, "timeout_quick": 600, "timeout_thorough": 3000},
+            {"run": "^TestC19(Sequential|Schedules|LongHistory|HugeHistory)$", "shards": 16, "quick_shards": 4, "timeout_quick": 600, "timeout_thorough": 3000},
             {"run": "^TestC19Race$", "shards": 4, "race": True, "timeout_quick": 600, "timeout_thorough": 3000},
         ],
     },
